@@ -28,7 +28,7 @@ fn owned(check: &str, class: &str) -> bool {
 		"C17" => matches!(class, "no_progress" | "hang" | "panic" | "close_failed" | "deadlock"),
 		"C10" => reads || matches!(class, "get_at_mismatch" | "history_mismatch" | "history_order" | "background_error" | "reopen_failed"),
 		"C11" => reads || matches!(class, "background_error" | "reopen_failed" | "close_failed"),
-		"C14" => reads || class.starts_with("horizon_") || matches!(class, "checkpoint_failed" | "restore_failed" | "background_error" | "reopen_failed" | "commit_error" | "standalone_mismatch"),
+		"C14" => reads || class.starts_with("horizon_") || matches!(class, "history_mismatch" | "history_order" | "checkpoint_failed" | "restore_failed" | "background_error" | "reopen_failed" | "commit_error" | "standalone_mismatch"),
 		_ => true,
 	}
 }
@@ -1120,6 +1120,24 @@ fn gen_c14(case_seed: u64, _case: u64, tier: Tier) -> Plan {
 		steps.push(Step::Probe);
 		steps.push(Step::Reopen);
 		steps.push(Step::Probe);
+	}
+	if opts.versioning {
+		// "every subsequent read": with versioning on, the version history is a read too.
+		// Keep the workload inside C10's domain (one write per key per transaction) and ask
+		// for the full history after every probe.
+		super::crash::one_write_per_key(&mut steps);
+		let mut out = Vec::new();
+		for s in steps {
+			let probe = matches!(s, Step::Probe);
+			out.push(s);
+			if probe {
+				out.push(Step::Begin { a: 2, mode: ModeS::ReadOnly });
+				out.push(Step::History { a: 2, lo: 0, hi: nkeys - 1, tomb: true, ts_range: None, limit: None, rev: false });
+				out.push(Step::History { a: 2, lo: 0, hi: nkeys - 1, tomb: true, ts_range: None, limit: None, rev: true });
+				out.push(Step::DropTxn { a: 2 });
+			}
+		}
+		steps = out;
 	}
 	let mut p = base_plan("C14", case_seed, opts, keys, steps);
 	p.gate_tasks = rng.chance(1, 2);
